@@ -1,3 +1,304 @@
-/-! # C20 — property theorems (stub: not built yet) -/
+import PymtlVerif.Proofs.TinyRV0
+import PymtlVerif.Proofs.Cksum
+/-!
+# C20 — FL, CL and RTL example processors agree with the ISA on every program
+
+What is PROVED here (for all instructions / states / inputs, no sampling):
+
+* the encoding of `Model/TinyRV0.lean` (written from `tinyrv0-isa.md`): `decode ∘ encode = id` on
+  instructions with in-range fields, `encode` injective, `decode` only accepts words of the table
+  (`decode w = some i ↔ i.Wf ∧ encode i = w`);
+* properties of the ISA interpreter: immediates are sign-extended, x0 stays 0, the state stays
+  well-formed (32 registers, 32-bit values, bytes), shifts use the low five bits of `R[rs2]`,
+  `PC' = PC + 4` except for a taken `bne`, `lw` after `sw` to the same address returns the stored
+  word, memory is little endian, a store leaves every non-overlapping word alone, the `proc2mngr`
+  stream only grows;
+* the checksum unit: `cksumRTL ws = cksumFL ws = cksumCL = cksumSpec ws` for every list of
+  16-bit words of every length (the hardware has 8), and for every 128-bit message.
+
+What is NOT proved (PARTIAL, stated plainly): there is no theorem relating the five-stage
+`ProcRTL`, the three-stage `ProcCL` or `ProcFL` to this interpreter.  Their hazard / bypass /
+stall / squash logic and the FL/CL/RTL interface adapters are covered only by the differential
+execution of `harness/checks/c20.py` (random terminating programs under random timing, each
+processor's `proc2mngr` sequence and final memory image against `run` of this model).  The full
+statement would be
+  `∀ program timing, obs (ProcRTL program timing) = obs (run program)`
+for a model of the pipeline; only the right-hand side exists in Lean.
+-/
 namespace PV.C20
+open PV.TinyRV0 PV.Cksum
+
+/-! ## encoding -/
+
+/-- every instruction with in-range fields decodes back to itself (all ten instructions) -/
+theorem decode_encode (i : Inst) (h : i.Wf) : decode (encode i) = some i :=
+  PV.TinyRV0.decode_encode i h
+
+/-- distinct instructions have distinct encodings -/
+theorem encode_injective (i j : Inst) (hi : i.Wf) (hj : j.Wf) (h : encode i = encode j) : i = j := by
+  have h1 := decode_encode i hi
+  have h2 := decode_encode j hj
+  rw [h] at h1
+  rw [h1] at h2
+  exact Option.some.inj h2
+
+/-- `decode` accepts exactly the 32-bit words of the table: whatever it returns is in range and
+re-encodes to the same word (so no two words decode to the same instruction, and every word outside
+the image of `encode` is rejected) -/
+theorem decode_iff (w : Nat) (i : Inst) : decode w = some i ↔ (i.Wf ∧ encode i = w) := by
+  constructor
+  · exact decode_sound w i
+  · intro ⟨h1, h2⟩; rw [← h2]; exact decode_encode i h1
+
+/-- every encoding is a 32-bit word -/
+theorem encode_lt (i : Inst) (h : i.Wf) : encode i < 2 ^ 32 := by
+  have := decode_encode i h
+  unfold decode at this
+  split at this
+  · assumption
+  · cases this
+
+/-- the all-zero word (what follows a program in the test memory) is not an instruction -/
+theorem decode_zero : decode 0 = none := by decide
+
+/-! ## immediates -/
+
+/-- two's complement reading of a 12-bit / 13-bit field -/
+def signed12 (imm : Nat) : Int := if imm < 2048 then (imm : Int) else (imm : Int) - 4096
+def signed13 (imm : Nat) : Int := if imm < 4096 then (imm : Int) else (imm : Int) - 8192
+
+/-- I/S immediates are sign-extended: adding `sext12 imm` modulo 2^32 is adding the signed value -/
+theorem imm12_sign_extended (a imm : Nat) (hi : imm < 4096) :
+    sext12 imm < W32 ∧
+    (((a + sext12 imm) % W32 : Nat) : Int) = ((a : Int) + signed12 imm) % 4294967296 := by
+  unfold sext12 signed12 W32
+  split <;> constructor <;> omega
+
+/-- B immediates are sign-extended -/
+theorem imm13_sign_extended (a imm : Nat) (hi : imm < 8192) :
+    sext13 imm < W32 ∧
+    (((a + sext13 imm) % W32 : Nat) : Int) = ((a : Int) + signed13 imm) % 4294967296 := by
+  unfold sext13 signed13 W32
+  split <;> constructor <;> omega
+
+/-! ## the interpreter -/
+
+/-- a step keeps the state well-formed: 32 registers, x0 = 0, 32-bit register / FIFO values, byte
+memory, 32-bit PC -/
+theorem step_ok (s s' : State) (h : s.Ok) (hs : step s = .ok s') : s'.Ok := by
+  unfold step at hs
+  split at hs
+  · exact exec_ok s s' _ h hs
+  · cases hs
+
+/-- the reset state is well-formed when the image holds bytes and the inputs are 32-bit values -/
+theorem init_ok (m : Mem) (inp : List Nat) (hm : ∀ a, m.get a < 256) (hi : ∀ v ∈ inp, v < W32) :
+    (State.init m inp).Ok := by
+  refine ⟨by simp [State.init], by simp [State.init, rget], ?_, hm, hi, by simp [State.init],
+    by simp [State.init, W32]⟩
+  intro r
+  simp only [State.init, rget, List.getD_eq_getElem?_getD, List.getElem?_replicate]
+  split <;> simp [W32]
+
+/-- x0 stays 0 after every step (whatever the instruction writes to) -/
+theorem x0_step (s s' : State) (h : rget s.regs 0 = 0) (hs : step s = .ok s') : rget s'.regs 0 = 0 := by
+  unfold step at hs
+  split at hs
+  · rename_i i _
+    cases i <;> simp only [exec] at hs
+    all_goals (repeat' split at hs)
+    all_goals first
+      | (cases hs; done)
+      | (cases hs; simp only [rget_rset_zero]; exact h)
+      | (cases hs; exact h)
+  · cases hs
+
+/-- ... hence after every run from any state with x0 = 0, in particular from reset -/
+theorem x0_run (fuel : Nat) (s : State) (n : Nat) (h : rget s.regs 0 = 0) :
+    rget (run fuel s n).1.regs 0 = 0 := by
+  induction fuel generalizing s n with
+  | zero => exact h
+  | succ f ih =>
+    unfold run
+    split
+    · exact h
+    · next s' hs => exact ih s' (n + 1) (x0_step s s' h hs)
+
+/-- a run keeps the state well-formed -/
+theorem run_ok (fuel : Nat) (s : State) (n : Nat) (h : s.Ok) : (run fuel s n).1.Ok := by
+  induction fuel generalizing s n with
+  | zero => exact h
+  | succ f ih =>
+    unfold run
+    split
+    · exact h
+    · next s' hs => exact ih s' (n + 1) (step_ok s s' h hs)
+
+/-- SLL / SRL use only the low five bits of `R[rs2]`: the result is `R[rs1] * 2^(R[rs2] % 32)`
+modulo 2^32, resp. `R[rs1] / 2^(R[rs2] % 32)` (zeros shifted in) -/
+theorem shift_low5 (s s' : State) (rd rs1 rs2 : Nat) (hlen : s.regs.length = 32) (hrd : rd ≠ 0) (hrd' : rd < 32) :
+    (exec s (.sll rd rs1 rs2) = .ok s' →
+      rget s'.regs rd = (rget s.regs rs1 * 2 ^ (rget s.regs rs2 % 32)) % W32) ∧
+    (exec s (.srl rd rs1 rs2) = .ok s' →
+      rget s'.regs rd = rget s.regs rs1 / 2 ^ (rget s.regs rs2 % 32)) := by
+  have hc : rd = rd ∧ rd ≠ 0 ∧ rd < s.regs.length := ⟨rfl, hrd, by omega⟩
+  constructor
+  · intro h; simp only [exec] at h; cases h
+    rw [rget_rset, if_pos hc, Nat.shiftLeft_eq]
+  · intro h; simp only [exec] at h; cases h
+    rw [rget_rset, if_pos hc, Nat.shiftRight_eq_div_pow]
+
+/-- `PC' = PC + 4` except for a taken `bne`, whose target is `PC + sext(imm)` -/
+theorem pc_next (s s' : State) (i : Inst) (hf : fetch s = .ok i) (hs : step s = .ok s') :
+    s'.pc = match i with
+      | .bne rs1 rs2 imm =>
+        if rget s.regs rs1 ≠ rget s.regs rs2 then (s.pc + sext13 imm) % W32 else (s.pc + 4) % W32
+      | _ => (s.pc + 4) % W32 := by
+  unfold step at hs
+  rw [hf] at hs
+  simp only at hs
+  cases i <;> simp only [exec] at hs
+  all_goals (repeat' split at hs)
+  all_goals first
+    | (cases hs; done)
+    | (cases hs; simp_all; done)
+
+/-- little endian: after `sw`, the byte at the lowest address is the least significant one -/
+theorem mem_little_endian (m : Mem) (a v : Nat) :
+    (storeWord m a v).get a = v % 256 ∧ (storeWord m a v).get (a + 1) = v / 256 % 256 ∧
+    (storeWord m a v).get (a + 2) = v / 65536 % 256 ∧ (storeWord m a v).get (a + 3) = v / 16777216 % 256 ∧
+    loadWord m a = m.get a + 256 * m.get (a + 1) + 65536 * m.get (a + 2) + 16777216 * m.get (a + 3) := by
+  refine ⟨?_, ?_, ?_, ?_, rfl⟩ <;> rw [storeWord_get] <;> simp
+
+/-- a stored word reads back, and every word that does not overlap it is unchanged -/
+theorem load_store (m : Mem) (a v a' : Nat) (hv : v < W32) :
+    loadWord (storeWord m a v) a = v ∧
+    ((a' + 4 ≤ a ∨ a + 4 ≤ a') → loadWord (storeWord m a v) a' = loadWord m a') := by
+  refine ⟨?_, loadWord_storeWord_disjoint m a v a'⟩
+  rw [loadWord_storeWord_same, Nat.mod_eq_of_lt hv]
+
+/-- `lw` right after `sw` to the same effective address returns the stored register value -/
+theorem lw_after_sw (s s1 s2 : State) (rs2 rs1 imm rd rs1' imm' : Nat) (hok : s.Ok)
+    (hf : fetch s = .ok (.sw rs2 rs1 imm)) (h1 : step s = .ok s1)
+    (hf1 : fetch s1 = .ok (.lw rd rs1' imm')) (h2 : step s1 = .ok s2)
+    (ha : (rget s1.regs rs1' + sext12 imm') % W32 = (rget s.regs rs1 + sext12 imm) % W32)
+    (hrd : rd ≠ 0) (hrd' : rd < 32) :
+    rget s2.regs rd = rget s.regs rs2 := by
+  unfold step at h1 h2
+  rw [hf] at h1; rw [hf1] at h2
+  simp only [exec] at h1 h2
+  split at h1
+  · next hA =>
+    cases h1
+    simp only at h2 ha
+    rw [ha, if_pos hA] at h2
+    cases h2
+    have hc : rd = rd ∧ rd ≠ 0 ∧ rd < s.regs.length := ⟨rfl, hrd, by rw [hok.len]; exact hrd'⟩
+    rw [rget_rset, if_pos hc]
+    rw [loadWord_storeWord_same, Nat.mod_eq_of_lt (hok.regs rs2)]
+  · cases h1
+
+/-- the `proc2mngr` sequence only grows: what was delivered stays delivered, in order -/
+theorem run_out_prefix (fuel : Nat) (s : State) (n : Nat) : s.out <+: (run fuel s n).1.out := by
+  induction fuel generalizing s n with
+  | zero => exact List.prefix_refl _
+  | succ f ih =>
+    unfold run
+    split
+    · exact List.prefix_refl _
+    · next s' hs =>
+      refine List.IsPrefix.trans ?_ (ih s' (n + 1))
+      unfold step at hs
+      split at hs
+      · rename_i i _
+        cases i <;> simp only [exec] at hs
+        all_goals (repeat' split at hs)
+        all_goals first
+          | (cases hs; done)
+          | (cases hs; exact List.prefix_refl _)
+          | (cases hs; exact List.prefix_append _ _)
+      · cases hs
+
+/-- the instruction count reported by `run` is the number of successful steps: at most `fuel` -/
+theorem run_count (fuel : Nat) (s : State) (n : Nat) :
+    n ≤ (run fuel s n).2.1 ∧ (run fuel s n).2.1 ≤ n + fuel := by
+  induction fuel generalizing s n with
+  | zero => simp [run]
+  | succ f ih =>
+    unfold run
+    split
+    · simp
+    · next s' _ => have := ih s' (n + 1); omega
+
+/-! ## checksum unit -/
+
+/-- ChecksumFL equals the specification for every word list -/
+theorem cksum_fl_eq_spec (ws : List Nat) : cksumFL ws = cksumSpec ws := fl_eq_spec ws
+
+/-- ChecksumRTL (32-bit step units, shift/or) equals the specification for every list of 16-bit words -/
+theorem cksum_rtl_eq_spec (ws : List Nat) (h : ∀ w ∈ ws, w < 65536) : cksumRTL ws = cksumSpec ws :=
+  rtl_eq_spec ws h
+
+/-- the property's clause on word lists: RTL = FL = specification (stated for every length; the unit has 8
+words; `ChecksumCL` calls the FL function) -/
+theorem cksum_agree (ws : List Nat) (h : ∀ w ∈ ws, w < 65536) :
+    cksumRTL ws = cksumFL ws ∧ cksumFL ws = cksumSpec ws :=
+  ⟨by rw [rtl_eq_spec ws h, fl_eq_spec], fl_eq_spec ws⟩
+
+/-- the property's clause on the units' message interface: for every 8 × 16-bit input, the CL unit and the
+RTL unit applied to the packed 128-bit message both return the specification's checksum of the words -/
+theorem cksum_units_agree (ws : List Nat) (h : ∀ w ∈ ws, w < 65536) (h8 : ws.length = 8) :
+    cksumCLmsg (packWords ws) = cksumSpec ws ∧ cksumRTLmsg (packWords ws) = cksumSpec ws ∧
+    cksumFL ws = cksumSpec ws := by
+  unfold cksumCLmsg cksumRTLmsg
+  rw [← h8, unpack_pack ws h]
+  exact ⟨fl_eq_spec ws, rtl_eq_spec ws h, fl_eq_spec ws⟩
+
+/-- on the 128-bit message interface: CL and RTL units return the same value for every message, the
+specification applied to the eight 16-bit slices -/
+theorem cksum_msg_agree (b : Nat) :
+    cksumRTLmsg b = cksumCLmsg b ∧ cksumCLmsg b = cksumSpec (unpackWords 8 b) := by
+  unfold cksumRTLmsg cksumCLmsg
+  rw [rtl_eq_spec _ (unpack_lt 8 b), fl_eq_spec]
+  exact ⟨rfl, rfl⟩
+
+/-- `b128_to_words ∘ words_to_b128 = id` on 16-bit words -/
+theorem unpack_pack_words (ws : List Nat) (h : ∀ w ∈ ws, w < 65536) :
+    unpackWords ws.length (packWords ws) = ws := unpack_pack ws h
+
+/-- the checksum is a 32-bit value: both halves are below 2^16 -/
+theorem cksum_lt (ws : List Nat) : cksumSpec ws < 2 ^ 32 := by
+  obtain ⟨h1, h2⟩ := spec_inv ws (0, 0) (by decide) (by decide)
+  simp only [cksumSpec]
+  omega
+
+/-! ## non-vacuity -/
+
+-- the encodings of the document's tables
+example : encode (.add 3 1 2) = 0x002081b3 := by decide
+example : encode (.addi 1 0 0xfff) = 0xfff00093 := by decide           -- addi x1, x0, -1
+example : encode (.sw 2 1 0xffc) = 0xfe20ae23 := by decide             -- sw x2, -4(x1)
+example : encode (.bne 1 2 0x1ff8) = 0xfe209ce3 := by decide           -- bne x1, x2, -8
+example : encode (.csrr 2 0xfc0) = 0xfc002173 := by decide
+example : encode (.csrw 0x7c0 2) = 0x7c011073 := by decide
+example : decode 0x00000013 = some (.addi 0 0 0) := by decide          -- nop
+example : decode 0x40208033 = none := by decide                         -- sub: funct7 ≠ 0
+example : decode 0xfc00a173 = none := by decide                         -- csrrs with rs1 ≠ x0
+-- single instructions on the reset state (registers all 0, input FIFO [7])
+def s0 : State := State.init Mem.empty [7]
+example : (exec s0 (.csrr 1 0xfc0)).toOption.map (fun s => (s.regs.take 3, s.inp, s.pc)) = some ([0, 7, 0], [], 0x204) := by
+  decide
+example : (exec s0 (.csrr 0 0xfc0)).toOption.map (fun s => (s.regs.take 3, s.inp)) = some ([0, 0, 0], []) := by
+  decide                                                                  -- write to x0 dropped, FIFO still dequeued
+example : (exec { s0 with regs := [0, 3, 33] } (.sll 1 1 2)).toOption.map (fun s => s.regs) = some [0, 6, 33] := by
+  decide                                                                  -- shift by 33 is a shift by 1
+example : (exec { s0 with regs := [0, 3, 4] } (.bne 1 2 0x1ff8)).toOption.map (fun s => s.pc) = some 0x1f8 := by
+  decide                                                                  -- taken, target PC - 8
+example : (exec { s0 with regs := [0, 3, 3] } (.bne 1 2 0x1ff8)).toOption.map (fun s => s.pc) = some 0x204 := by
+  decide
+example : (exec { s0 with regs := [0, 5] } (.csrw 0x7c0 1)).toOption.map (fun s => s.out) = some [5] := by decide
+example : (exec { s0 with regs := [0, 2] } (.lw 2 1 0)).toOption.map (fun s => s.pc) = none := by decide   -- unaligned: undefined
+example : cksumSpec [1, 2, 3, 4, 5, 6, 7, 8] = 0x00780024 := by decide
+example : cksumRTL [0xffff, 0xffff, 0xffff, 0xffff, 0xffff, 0xffff, 0xffff, 0xffff] = 0xffdcfff8 := by decide
+
 end PV.C20
